@@ -104,6 +104,15 @@ func genC01(rng *rand.Rand, trial int) *c01Spec {
 		alive[id] = true
 	}
 	gaps := []int{0, 0, 50, 200, 400, 800}
+	// trials with parallel sessions: two nodes both dialling each other produce a second session between a
+	// connected pair, which the receiver refuses; the refusal must leave the established connection alone.
+	// (no silent failures / abrupt deaths in these trials: the oracle treats the pair as one edge of one cost)
+	parallel := trial%5 == 2 && len(sp.Links) > 0
+	if parallel {
+		ne += 2
+		l := sp.Links[rng.Intn(len(sp.Links))]
+		sp.Script = append(sp.Script, c01Event{Kind: "parallel", A: l.A, B: l.B, Gap: gaps[rng.Intn(len(gaps))]})
+	}
 	for k := 0; k < ne; k++ {
 		e := c01Event{Gap: gaps[rng.Intn(len(gaps))]}
 		switch r := rng.Intn(100); {
@@ -145,6 +154,22 @@ func genC01(rng *rand.Rand, trial int) *c01Spec {
 				e.Kind, e.A, e.B, e.Cost = "new", a, b, c01Costs[rng.Intn(len(c01Costs))]
 				ls[a+"|"+b] = &lstate{up: true}
 			}
+		case r < 58 && parallel: // a second session between two connected nodes (both configured to dial each other)
+			keys := []string{}
+			for k2, s := range ls {
+				if s.up {
+					keys = append(keys, k2)
+				}
+			}
+			if len(keys) == 0 {
+				continue
+			}
+			sort.Strings(keys)
+			ab := strings.Split(keys[rng.Intn(len(keys))], "|")
+			e.Kind, e.A, e.B = "parallel", ab[0], ab[1]
+			if rng.Intn(2) == 0 {
+				e.A, e.B = e.B, e.A
+			}
 		case r < 58: // silent failure
 			keys := []string{}
 			for k2, s := range ls {
@@ -173,6 +198,9 @@ func genC01(rng *rand.Rand, trial int) *c01Spec {
 				continue
 			}
 			e.Kind, e.A = "die", id
+			if parallel {
+				e.Kind = "stop"
+			}
 			alive[id] = false
 		default: // restart (alive or not)
 			id := sp.Nodes[rng.Intn(n)]
@@ -196,6 +224,7 @@ type c01Trial struct {
 	silentL map[string]bool
 	dead    map[string]bool // abruptly dead nodes (zombie instance still running, isolated)
 	idleEv  bool
+	parallel int
 }
 
 func (t *c01Trial) tap(e memnet.TapEvent) {
@@ -266,6 +295,11 @@ func (t *c01Trial) apply(e c01Event) {
 		if t.dead[e.A] || t.dead[e.B] {
 			li.L.Silence(true, true)
 		}
+	case "parallel":
+		// same cost as the first link of the pair, so that the oracle does not depend on which session wins
+		li := t.m.Connect(e.A, e.B, t.findLink(e.A, e.B).Cost, false)
+		li.L.Redial = 150 * time.Millisecond
+		t.parallel++
 	case "silent":
 		li := t.findLink(e.A, e.B)
 		li.Dead = true
